@@ -51,6 +51,7 @@ The full data structure is
 
 """
 
+import itertools
 import random
 from pprint import pprint
 
@@ -405,11 +406,21 @@ def data_generator(data, fun=_data_split, args=(), kwargs=None, MAX_ITER=1000):
     """Data generator: call ``fun`` to each ``data`` as a generator. The extra arguments will be passed to ``fun``."""
     kwargs = kwargs if kwargs is not None else {}
 
-    def _gen(dat):
+    def _no_leaf(dat):
         if isinstance(dat, dict):
-            if not dat:
-                for i in range(MAX_ITER):
-                    yield {}
+            return all(_no_leaf(v) for v in dat.values())
+        if isinstance(dat, (list, tuple)):
+            return all(_no_leaf(v) for v in dat)
+        return False
+
+    def _gen(dat, top=False):
+        if isinstance(dat, (dict, list, tuple)) and _no_leaf(dat):
+            # containers without any array have no length of their own:
+            # repeat them for as long as the sibling arrays last
+            count = range(MAX_ITER) if top else itertools.repeat(None)
+            for i in count:
+                yield data_map(dat, lambda x: x)
+        elif isinstance(dat, dict):
             ks, vs = [], []
             for k, v in dat.items():
                 ks.append(k)
@@ -417,9 +428,6 @@ def data_generator(data, fun=_data_split, args=(), kwargs=None, MAX_ITER=1000):
             for s_data in zip(*vs):
                 yield type(dat)(zip(ks, s_data))
         elif isinstance(dat, list):
-            if not dat:
-                for i in range(MAX_ITER):
-                    yield []
             vs = []
             for v in dat:
                 vs.append(_gen(v))
@@ -435,7 +443,7 @@ def data_generator(data, fun=_data_split, args=(), kwargs=None, MAX_ITER=1000):
             for i in fun(dat, *args, **kwargs):
                 yield i
 
-    return _gen(data)
+    return _gen(data, top=True)
 
 
 def data_split(data, batch_size, axis=0):
